@@ -1,4 +1,5 @@
 import RzmqModel.Model.ReqRep
+import RzmqModel.Gen.Life
 import RzmqModel.Proofs.ReqRep
 /-!
 # C10 — REQ and REP enforce strict alternation for every call history
@@ -10,36 +11,72 @@ commit order.
 namespace Rzmq.C10
 open Rzmq
 
-/-- REQ: whatever the tasks and the peer do, the successful operations strictly alternate send, recv, send, …
-(an exchange whose peer vanished is void). -/
-theorem req_alternates (evs : List ReqEv) : alternates .send (ReqSys.run {} evs).log = true := by
-  sorry
+/-- REQ, exchanges that run to completion: as long as no exchange is given up (no receive ends without a
+message, the peer stays), the successful operations strictly alternate send, recv, send, … whatever the tasks
+do and however their lock scopes interleave. -/
+theorem req_alternates (evs : List ReqEv) (h : ∀ e ∈ evs, e.abandons = false) :
+    alternates .send (ReqSys.run {} evs).log = true := by
+  rw [alternates_eq_nextOp, (StrictInv.reach evs h).1]; rfl
+
+/-- REQ, every history (time-outs, dropped futures, peers vanishing included): two sends never succeed without
+a receive or a given-up exchange in between, … -/
+theorem req_no_double_send (evs : List ReqEv) : sendsSeparated false (ReqSys.run {} evs).log = true := by
+  rw [sendsSeparated_eq_sepEnd, (ReqInv.reach evs).shape.sepEnd]; rfl
+
+/-- … never more replies are received than requests were sent, … -/
+theorem req_recv_bounded (evs : List ReqEv) :
+    (ReqSys.run {} evs).log.count .recv ≤ (ReqSys.run {} evs).log.count .send := by
+  have h := (ReqInv.reach evs).bound
+  omega
+
+/-- … and the state the next call is judged by is exactly what the log says: the socket expects a reply iff
+the last successful operation was a send (so after a successful receive a send is accepted again, and a
+receive is refused). -/
+theorem req_state_tracks_log (evs : List ReqEv) :
+    (∃ x, (ReqSys.run {} evs).st = .expectingReply x) ↔ (ReqSys.run {} evs).log.getLast? = some .send := by
+  rw [← ReqState.isExp_iff]
+  exact (ReqInv.reach evs).shape.getLast
+
+/-- the intermediate shape (successful receives guarded by the exchange number as well) wedges: the late
+waiter of exchange 0 consumes the reply of exchange 1 and the socket still expects a reply -/
+theorem req_guarded_success_wedges :
+    let s := ReqSys.run { successGuarded := true }
+      [.sendBegin 1, .sendOk 1, .recvBegin 1, .recvBegin 2, .peerReplies, .recvGot 1,
+       .sendBegin 1, .sendOk 1, .peerReplies, .recvGot 2]
+    s.st = .expectingReply 1 ∧ s.log.getLast? = some .recv := by
+  decide
 
 /-- at most one request is outstanding, apart from requests whose exchange was given up (timed-out receives) -/
 theorem req_one_outstanding (evs : List ReqEv) :
     (ReqSys.run {} evs).atPeer + (ReqSys.run {} evs).replies ≤ 1 + (ReqSys.run {} evs).log.count .abandoned := by
-  sorry
+  have h := (ReqInv.reach evs).out
+  split at h <;> omega
 
 /-- a call refused with InvalidState changes nothing but the rejection counter -/
 theorem req_invalid_call_noop (s : ReqSys) (t : Nat) (h : s.pc t = .idle)
     (hs : s.st ≠ .readyToSend) : s.step (.sendBegin t) = { s with rejected := s.rejected + 1 } := by
-  sorry
+  have h1 : (s.pc t != .idle) = false := by simp [h]
+  have h2 : (s.st == .readyToSend) = false := by simp [hs]
+  simp [ReqSys.step, h1, h2]
 
 theorem req_invalid_recv_noop (s : ReqSys) (t : Nat) (h : s.pc t = .idle)
     (hs : ∀ x, s.st ≠ .expectingReply x) : s.step (.recvBegin t) = { s with rejected := s.rejected + 1 } := by
-  sorry
+  have h1 : (s.pc t != .idle) = false := by simp [h]
+  simp only [ReqSys.step, h1, Bool.false_eq_true, if_false]
 
 /-- a failed, timed-out or dropped `send` leaves the socket ready to send again (never stuck in `sending`) -/
 theorem req_failed_send_rolls_back (evs : List ReqEv) :
     let s := ReqSys.run {} evs
     s.st = .sending → ∃ t, s.pc t = .sendInFlight := by
-  sorry
+  intro s hs
+  have hs' : (ReqSys.run {} evs).st = .sending := hs
+  exact (ReqInv.reach evs).sif.ex (by rw [hs']; rfl)
 
 /-- the earlier shape (check, release the lock, commit after the await) is NOT safe: two tasks both pass the
 check and two sends succeed in a row -/
 theorem req_check_then_act_counterexample :
     alternates .send (ReqSys.run { claim := false } [.sendBegin 1, .sendBegin 2, .sendOk 1, .sendOk 2]).log = false := by
-  sorry
+  decide
 
 /-- the earlier shape of `recv`: a receive of the previous exchange, woken late, resets the state of the next
 request, and a second request goes out with no reply in between -/
@@ -47,31 +84,49 @@ theorem req_stale_receive_counterexample :
     alternates .send (ReqSys.run { exchangeGuard := false }
       [.sendBegin 1, .sendOk 1, .recvBegin 2, .recvBegin 3, .peerReplies, .recvGot 2,
        .sendBegin 1, .sendOk 1, .recvFail 3, .sendBegin 1, .sendOk 1]).log = false := by
-  sorry
+  decide
 
 /-- REP: the successful operations alternate recv, send, recv, … and every reply goes to the peer whose request
 it answers. -/
 theorem rep_alternates_and_routes (evs : List RepEv) : repWellFormed (RepSys.run {} evs).log = true := by
-  sorry
+  rw [repWellFormed_eq_repOpen, (RepInv.reach evs).log]; rfl
 
 theorem rep_invalid_send_noop (s : RepSys) (t : Nat) (h : ∀ p, s.st ≠ .receivedRequest p) :
     s.step (.sendReply t) = { s with rejected := s.rejected + 1 } := by
-  sorry
+  simp only [RepSys.step]
 
 theorem rep_invalid_recv_noop (s : RepSys) (t : Nat) (h : s.pc t = .idle) (hs : s.st ≠ .readyToReceive) :
     s.step (.recvBegin t) = { s with rejected := s.rejected + 1 } := by
-  sorry
+  have h1 : (s.pc t != .idle) = false := by simp [h]
+  have h2 : (s.st == .readyToReceive) = false := by simp [hs]
+  simp [RepSys.step, h1, h2]
 
 /-- a timed-out or dropped `recv` leaves the socket ready to receive again (never stuck in `receiving`) -/
 theorem rep_failed_recv_rolls_back (evs : List RepEv) :
     let s := RepSys.run {} evs
     s.st = .receiving → ∃ t, s.pc t = .recvInFlight := by
-  sorry
+  intro s hs
+  exact (RepInv.reach evs).ex hs
 
 /-- the earlier shape: two concurrent receives both succeed and the second overwrites the first's reply address -/
 theorem rep_check_then_act_counterexample :
     repWellFormed (RepSys.run { claim := false }
       [.peerRequests 7, .peerRequests 8, .recvBegin 1, .recvBegin 2, .recvGot 1, .recvGot 2, .sendReply 1]).log = false := by
-  sorry
+  decide
+
+-- tie to the source -------------------------------------------------------------------------------------
+
+/-- the model instance that the current source corresponds to: which lock scopes claim / roll back / guard is
+re-extracted from `req_socket.rs` and `rep_socket.rs` on every run (`Gen/Life.lean`) -/
+def currentReq : ReqSys :=
+  { claim := Gen.reqSendClaims == 1 && Gen.reqSendRollsBack == 1,
+    exchangeGuard := Gen.reqExchangeGuard == 2,
+    successGuarded := Gen.reqRecvOkFinishesCurrent != 2 }
+
+def currentRep : RepSys := { claim := Gen.repRecvClaims == 2 && Gen.repRecvRollsBack == 1 }
+
+/-- … and it is the instance all the theorems above are about -/
+theorem current_source_is_the_proved_instance : currentReq = {} ∧ currentRep = {} := by
+  decide
 
 end Rzmq.C10
